@@ -210,6 +210,12 @@ func run(sc scenario) (out trialOut) {
 		rl := ratelimiter.SmoothBuilderWithMaxRate[int](time.Hour).WithMaxWaitTime(2 * time.Hour).Build()
 		rl.TryAcquirePermit()
 		pols = []failsafe.Policy[int]{rl, retry()}
+	case "bulkhead-full-nowait(retry)":
+		// a full bulkhead that does not wait, outermost, entered with a context that is already done: the context is what
+		// the admission looks at first, so the caller is told about the cancellation, not about the bulkhead
+		heldBH = bulkhead.Builder[int](1).Build()
+		heldBH.TryAcquirePermit()
+		pols = []failsafe.Policy[int]{heldBH, retry()}
 	case "timeout-never(retry)":
 		pols = []failsafe.Policy[int]{timeout.With[int](time.Hour), retry()}
 	case "retry(hedge)":
@@ -236,7 +242,7 @@ func run(sc scenario) (out trialOut) {
 	default:
 		return fail("harness", "unknown shape %s", sc.Shape)
 	}
-	waitsInPolicy := sc.Shape == "retry(bulkhead-full)" || sc.Shape == "retry(limiter-wait)" || sc.Shape == "bulkhead-full(retry)" || sc.Shape == "limiter-wait(retry)"
+	waitsInPolicy := sc.Shape == "retry(bulkhead-full)" || sc.Shape == "retry(limiter-wait)" || sc.Shape == "bulkhead-full(retry)" || sc.Shape == "limiter-wait(retry)" || sc.Shape == "bulkhead-full-nowait(retry)"
 	isHedgeShape := sc.Shape == "hedge" || sc.Shape == "hedge-custom" || sc.Shape == "timeout(hedge)"
 
 	var invocations atomic.Int32
@@ -497,7 +503,7 @@ func tail(s string, n int) string {
 
 func genScenario(t *rapid.T) scenario {
 	sc := scenario{}
-	sc.Shape = rapid.SampledFrom([]string{"retry", "retry", "fallback(retry)", "retry(fallback)", "retry(breaker)", "retry(bulkhead-full)", "retry(limiter-wait)", "bulkhead-full(retry)", "limiter-wait(retry)", "timeout-never(retry)", "hedge", "hedge-custom", "hedge(retry)", "timeout(retry)", "fallback(timeout(retry))", "timeout(hedge)"}).Draw(t, "shape")
+	sc.Shape = rapid.SampledFrom([]string{"retry", "retry", "fallback(retry)", "retry(fallback)", "retry(breaker)", "retry(bulkhead-full)", "retry(limiter-wait)", "bulkhead-full(retry)", "limiter-wait(retry)", "bulkhead-full-nowait(retry)", "timeout-never(retry)", "hedge", "hedge-custom", "hedge(retry)", "timeout(retry)", "fallback(timeout(retry))", "timeout(hedge)"}).Draw(t, "shape")
 	timeoutShape := sc.Shape == "timeout(retry)" || sc.Shape == "fallback(timeout(retry))" || sc.Shape == "timeout(hedge)"
 	hedgeShape := sc.Shape == "hedge" || sc.Shape == "hedge-custom" || sc.Shape == "timeout(hedge)"
 	sc.Async = rapid.Bool().Draw(t, "async")
@@ -527,6 +533,15 @@ func genScenario(t *rapid.T) scenario {
 			}
 			sc.Point = rapid.SampledFrom(pts).Draw(t, "point")
 		}
+	}
+	if sc.Shape == "bulkhead-full-nowait(retry)" {
+		// only a context that is done before the start is decided here (a later cancellation finds the execution over:
+		// it was refused at once)
+		sc.Async = false
+		sc.Source = rapid.SampledFrom([]string{"ctx-cancel", "ctx-deadline"}).Draw(t, "doneSource")
+		sc.Point, sc.WithCause, sc.DeadlineUs = "pre", rapid.IntRange(0, 3).Draw(t, "doneCause") == 0, 100
+		sc.MaxRetries, sc.K = rapid.SampledFrom([]int{-1, 0, 3}).Draw(t, "maxRetriesNW"), 1
+		return sc
 	}
 	sc.DelayHour = rapid.Bool().Draw(t, "delayHour")
 	sc.MaxRetries = rapid.SampledFrom([]int{-1, -1, 0, 1, 3, 50}).Draw(t, "maxRetries")
